@@ -182,12 +182,12 @@ Variable k : Z.
 Let K := Z.abs k.
 Let K2 := (2 * Z.abs k)%Z.
 Definition nn_safe (signal response : list float) (off la : nat) : bool :=
-  (K <=? kmax)%Z && forallb (okv K) signal &&
+  (K <=? kmax)%Z &&
   nn_ok float 0 neg_zero PrimFloat.add PrimFloat.sub PrimFloat.mul PrimFloat.div f_min f_neg f_nonneg
         (okv K) (f_ok_sub K) (f_ok_mul K) (f_ok_div K) (f_ok_sq k) (f_ok_add K2)
         signal response off la.
 Definition ls_safe (signal response : list float) (offs las : list nat) : bool :=
-  (K <=? kmax)%Z && forallb (okv K) signal &&
+  (K <=? kmax)%Z &&
   ls_ok float 0 neg_zero infinity PrimFloat.add PrimFloat.sub PrimFloat.mul PrimFloat.div f_min f_neg f_nonneg
         PrimFloat.ltb
         (okv K) (f_ok_sub K) (f_ok_mul K) (f_ok_div K) (f_ok_sq k) (f_ok_add K2) (f_ok_lt2 K2)
